@@ -1,5 +1,6 @@
 import PoaVerif.Lemmas.EndBlock
 import PoaVerif.Facts
+import PoaVerif.Lemmas.Corollaries
 /-
   C18 — queries report exactly the committed PoA state.
 -/
@@ -49,5 +50,15 @@ theorem c18_pending (s : App) : s.queryPending = s.pending := rfl
     execution is a function of (state, block) only, so interleaving queries cannot change it -/
 theorem c18_pure (env : Env) (s : App) (b : Block) (qs : List (Option Nat)) :
     (let _answers := qs.map s.queryPower; App.block env s b) = App.block env s b := rfl
+
+/-- **C18, the power query agrees with CometBFT** (partial: the block's state enters the EndBlocker inside `Pre`):
+    after the block, the key of every bonded, un-jailed validator carries in CometBFT's set exactly the power the
+    query returns for it -/
+theorem c18_query_agrees_partial (s s' : App) (c c' : CSet) (ups : List (Nat × Int)) (hpre : Pre s c = true)
+    (h : s.stakingEndBlock = .ok (ups, s')) (hc : Comet.applyChangeSet c ups = .ok c')
+    (op : Nat) (w : Val) (hw : s'.getVal op = some w) (hb : w.status = .bonded) (hj : w.jailed = false) :
+    alookup w.key c' = s'.queryPower (some op) := by
+  rw [query_agrees_pre s s' c c' ups hpre h hc op w hw hb hj]
+  simp [queryPower, hw]
 
 end PoaVerif.Props.C18
